@@ -9,6 +9,7 @@
                                              ion.NewReaderCat(bytes, NewCatalog(desc...)); binary or text
      bwsh <budget|-> <desc>* -- <calls...>   NewBinaryWriter(out, desc...) driven by the call tokens of bw
      bwlsh <budget|-> <desc>* L <n> <sym-hex>*n -- <calls...>
+     bwlshb <budget|-> <desc>* L <n> <sym-hex>*n X <m> <sym-hex>*m -- <calls...>   (table built by a builder; X added after Build)
                                              NewBinaryWriterLST(out, NewLocalSymbolTable(desc..., locals))
      sdecodecat x<bytes> <desc>*             (model only) the specification decoder with a catalog
      ctxhist x<bytes> <desc>*                (model only) the symbol context after the stream: the
@@ -128,6 +129,25 @@ Definition drv_symctx (cmd : list N) (args : list (list N)) : option (list N) :=
       match parse_budget b, split_dd rest [] with
       | Some bud, Some (tb, cl) =>
         match (pdo imps <- p_shareds fuel; pdo _ <- p_lit "L"; pdo syms <- p_list p_x; p_ret (imps, syms)) tb,
+              parse_calls (List.length cl) cl with
+        | Some ((imps, syms), []), Some cs =>
+          Some (out_drive_sh (drive_ix_sh (new_writer_lst_sh bud imps syms) cs [] 0))
+        | _, _ => None
+        end
+      | _, _ => None
+      end
+    | _ => None
+    end
+  else if tok_is cmd "bwlshb" then
+    (* the fixed table is a symbolTableBuilder's Build() taken BEFORE the texts after X were added to the builder: the
+       snapshot does not see them (C09 builder stability), so the writer is the one of bwlsh; the generator only sends
+       locals that are distinct and in no import, where Build() = NewLocalSymbolTable(imports, locals) *)
+    match args with
+    | b :: rest =>
+      match parse_budget b, split_dd rest [] with
+      | Some bud, Some (tb, cl) =>
+        match (pdo imps <- p_shareds fuel; pdo _ <- p_lit "L"; pdo syms <- p_list p_x;
+               pdo _ <- p_lit "X"; pdo _ <- p_list p_x; p_ret (imps, syms)) tb,
               parse_calls (List.length cl) cl with
         | Some ((imps, syms), []), Some cs =>
           Some (out_drive_sh (drive_ix_sh (new_writer_lst_sh bud imps syms) cs [] 0))
